@@ -400,6 +400,14 @@ Definition c10_closing_ties (sc : c10_scen) : nat := match sc with ScStdout _ _ 
 (* realmain's catch: std::cerr << whoami << ": " << e.what() << '\n' : four insertions *)
 Definition c10_catch_ties (sc : c10_scen) : nat := match sc with ScStdout _ _ _ _ => 4 | _ => 0 end.
 
+(* realmain's catch (std::exception&): the message, then EXIT_ERROR *)
+Definition c10_fail_exit (en : c10_env) (sc : c10_scen) (e : c10_exn) (w : c10_world) : c10_result :=
+  match c10_os_tie_n (c10_catch_ties sc) en (c10_say w (c10_exn_diag e)) with
+  | ROk _ w' => c10_process_exit en sc 2 w'
+  | RExc _ w' => c10_process_exit en sc 2 w'
+  | RDead w' => mk_result None w'
+  end.
+
 (* QPDFJob::run + writeQPDF's warning message + getExitCode, under realmain's catch *)
 Definition c10_run (en : c10_env) (warn warn_exit0 : bool) (sc : c10_scen) (orig : list N) : c10_result :=
   let w0 := c10_initial en sc orig in
@@ -410,12 +418,7 @@ Definition c10_run (en : c10_env) (warn warn_exit0 : bool) (sc : c10_scen) (orig
         c10_bind (c10_os_tie_n (c10_closing_ties sc) en (if wn then c10_say w1 DgWarn else w1)) (fun _ w2 =>
         c10_bind (c10_main_stdout_check en sc w2) (fun _ w3 => ROk wn w3))) with
   | ROk wn w => c10_process_exit en sc (if wn && negb warn_exit0 then 3 else 0) w
-  | RExc e w =>
-    match c10_os_tie_n (c10_catch_ties sc) en (c10_say w (c10_exn_diag e)) with
-    | ROk _ w' => c10_process_exit en sc 2 w'
-    | RExc _ w' => c10_process_exit en sc 2 w'
-    | RDead w' => mk_result None w'
-    end
+  | RExc e w => c10_fail_exit en sc e w
   | RDead w => mk_result None w
   end.
 
